@@ -1133,7 +1133,9 @@ def run(prop, tier, seed):
         "pipe with the data in it): the statement speaks of running workers; measured live under "
         "live.exit_mode_tail_lost",
         "output still unread when remove_redirections runs in kill_process (the worker is dead by then)",
-        "decoding of the bytes by the stream classes (a multi-byte character split over two reads)",
+        "what the stream classes do with the bytes: FileStream / StdoutStream decode every record on its own with "
+        "errors='replace', so a multi-byte character that straddles a read boundary (buffer = 1024) is written as "
+        "replacement characters (the bytes do reach the stream callable intact, which is all C17 states)",
         "liveness of the loop itself (fairness of readiness callbacks)",
     ]
     samples = []
